@@ -20,7 +20,7 @@ accepted (the goals are proved with `ring`, the pairing mode is universally quan
 import ast, os, shutil, subprocess, warnings
 
 PRELUDE = """From Coq Require Import List Arith Lia Bool Ring.
-From TLV Require Import Base.Shape Base.PyList Base.Tensor Base.BigSum Base.Ops Model.Errors Proofs.ErrorsProofs Proofs.ErrorsP2 Proofs.ErrorsSkeleton.
+From TLV Require Import Base.Shape Base.PyList Base.Tensor Base.BigSum Base.Ops Model.Errors Proofs.ErrorsProofs Proofs.ErrorsP2 Proofs.ErrorsSkeleton Proofs.ErrorsTR.
 Import ListNotations.
 Lemma even_mod2 n : Nat.even n = (n mod 2 =? 0).
 Proof.
@@ -386,6 +386,61 @@ Proof. repeat split; try discriminate; reflexivity. Qed.
 """
 
 
+# ----------------------------------------------------------------------------- tensor_ring_als: the tr_idx bookkeeping
+def natexpr(node, env):
+    if isinstance(node, ast.Name) and node.id in env:
+        return env[node.id]
+    if isinstance(node, ast.Constant) and type(node.value) is int and 0 <= node.value <= 100:
+        return f"{node.value}"
+    if isinstance(node, ast.BinOp) and isinstance(node.op, (ast.Add, ast.Sub)):
+        return f"({natexpr(node.left, env)} {'+' if isinstance(node.op, ast.Add) else '-'} {natexpr(node.right, env)})"
+    raise Untranslatable(f"integer construct {ast.unparse(node)}")
+
+
+def listexpr(node, env):
+    if isinstance(node, ast.BinOp) and isinstance(node.op, ast.Add):
+        return f"({listexpr(node.left, env)} ++ {listexpr(node.right, env)})"
+    if isinstance(node, ast.List):
+        return "[" + "; ".join(natexpr(e, env) for e in node.elts) + "]"
+    if isinstance(node, ast.ListComp) and len(node.generators) == 1:
+        g = node.generators[0]
+        if isinstance(g.target, ast.Name) and not g.ifs and isinstance(g.iter, ast.Call) and _callname(g.iter) == "range" and len(g.iter.args) == 1:
+            v = g.target.id
+            return f"(map (fun {v} => {natexpr(node.elt, dict(env, **{v: v}))}) (seq 0 {natexpr(g.iter.args[0], env)}))"
+    raise Untranslatable(f"list construct {ast.unparse(node)}")
+
+
+def tr_idx_goal(fn):
+    assigns = [n for n in ast.walk(fn) if isinstance(n, ast.Assign) and len(n.targets) == 1 and getattr(n.targets[0], "id", "") == "tr_idx"]
+    if len(assigns) != 1:
+        raise Untranslatable(f"{fn.name}: expected one assignment to tr_idx, found {len(assigns)}")
+    body = listexpr(assigns[0].value, {"n_dim": "N", "dim": "dim"})
+    src = ast.unparse(fn)
+    need = ["tl.transpose(subchain_tensor, tr_idx)", "tl.reshape(subchain_tensor, (-1, rank[dim] * rank[dim + 1]))",
+            "tl.transpose(tl.reshape(sol, (rank[dim], rank[dim + 1], shape[dim])), [0, 2, 1])",
+            "subchain_tensor = tr_decomp[(dim + 1) % n_dim]", "tl.tensordot(subchain_tensor, tr_decomp[(dim + j) % n_dim], axes=1)",
+            "for j in range(2, n_dim)", "matricize(tensor, [n for n in range(n_dim) if n != dim], [dim])"]
+    missing = [x for x in need if x not in src]
+    if missing:
+        raise Untranslatable(f"{fn.name}: the sub-chain / reshape bookkeeping changed: {missing}")
+    return "tr_idx", f"""
+Definition gen_tr_idx (N dim : nat) : list nat := {body}.
+Lemma map_seq_ext_tie (f g : nat -> nat) n n' : n = n' -> (forall i, i < n -> f i = g i) -> map f (seq 0 n) = map g (seq 0 n').
+Proof. intros <- H. apply map_ext_in. intros i Hi. apply in_seq in Hi. apply H. lia. Qed.
+Lemma app_cong_tie (a a' b b' : list nat) : a = a' -> b = b' -> a ++ b = a' ++ b'.
+Proof. intros -> ->. reflexivity. Qed.
+Lemma tie_tr_idx : forall N dim, dim < N -> gen_tr_idx N dim = tr_idx N dim.
+Proof.
+  intros N dim Hd. unfold gen_tr_idx, tr_idx. rewrite <- ?app_assoc.
+  apply app_cong_tie; [apply map_seq_ext_tie; [lia | intros; lia] | apply app_cong_tie; [apply map_seq_ext_tie; [lia | intros; lia] | ]].
+  try reflexivity; repeat f_equal; lia.
+Qed.
+Lemma tie_tr_idx_sorts : forall N dim, dim < N ->
+  permute_axes (subchain_axes N dim) (gen_tr_idx N dim) = map AMode (remove_nth dim (seq 0 N)) ++ [ABond dim; ABond (dim + 1)].
+Proof. intros N dim H. rewrite tie_tr_idx by exact H. now apply tr_idx_sorts_modes. Qed.
+"""
+
+
 def ties(repo):
     """[(name, goal text or None, reason)]"""
     def tree(rel):
@@ -394,6 +449,7 @@ def ties(repo):
             return ast.parse(open(os.path.join(repo, rel)).read())
     cp, nn, cc = tree("tensorly/decomposition/_cp.py"), tree("tensorly/decomposition/_nn_cp.py"), tree("tensorly/decomposition/_constrained_cp.py")
     tk, p2 = tree("tensorly/decomposition/_tucker.py"), tree("tensorly/decomposition/_parafac2.py")
+    tr = tree("tensorly/decomposition/_tr_als.py")
     makers = [
         ("error_calc", lambda: cp_goal("error_calc", _fn(cp, "error_calc"), _fn(cp, "parafac"))),
         ("hals", lambda: cp_goal("hals", _fn(nn, "non_negative_parafac_hals"), _fn(nn, "non_negative_parafac_hals"))),
@@ -405,6 +461,7 @@ def ties(repo):
         ("loop_order_parafac", lambda: cfg_goal("parafac", _fn(cp, "parafac"), False)),
         ("loop_order_non_negative_parafac", lambda: cfg_goal("non_negative_parafac", _fn(nn, "non_negative_parafac"), True)),
         ("loop_order_non_negative_parafac_hals", lambda: cfg_goal("non_negative_parafac_hals", _fn(nn, "non_negative_parafac_hals"), True)),
+        ("tr_idx", lambda: tr_idx_goal(_fn(tr, "tensor_ring_als"))),
         ("loop_order_constrained_parafac", lambda: cfg_goal("constrained_parafac", _fn(cc, "constrained_parafac"), False)),
     ]
     out = []
